@@ -115,6 +115,8 @@ def build_table(R, rng):
         add(f"matrix_norm(ord={o})", "SP", lambda o=o: U.matrix_norm(sp33, o))
     for o in ("nuc", 3, -1, 0, "1", "2", "FRO"):
         add("matrix_norm", f"OPT:ord={o!r}", lambda o=o: U.matrix_norm(A33, o), A33)
+        for lab, Atr in (("zero", refq.zeros(2, 2)), ("1x1", refq.qa(np.array([[[1.5, 0.5, 0.0, -1.0]]]))), ("identity", refq.eye(2))):
+            add("matrix_norm", f"OPT:ord={o!r}:input_{lab}", lambda o=o, Atr=Atr: U.matrix_norm(Atr, o), Atr)
     # --- embeddings --------------------------------------------------------------------
     add("real_expand", "DT:real", lambda: U.real_expand(real), real)
     add("real_expand", "DT:complex", lambda: U.real_expand(cplx), cplx)
@@ -129,6 +131,9 @@ def build_table(R, rng):
     add_ns("det(Dieudonne)", lambda Ans: U.det(Ans, "Dieudonne"))
     add_ns("det(Moore)", lambda Ans: U.det(Ans, "Moore"))
     add("det", "OPT:type='LU'", lambda: U.det(A33, "LU"), A33)
+    for lab, Atr in (("zero", refq.zeros(2, 2)), ("1x1", refq.qa(np.array([[[1.5, 0.0, 0.0, 0.0]]]))), ("identity", refq.eye(3))):
+        add("det", f"OPT:type='LU':input_{lab}", lambda Atr=Atr: U.det(Atr, "LU"), Atr)
+        add("det", f"OPT:type='':input_{lab}", lambda Atr=Atr: U.det(Atr, ""), Atr)
     add("det", "OPT:type='moore'", lambda: U.det(_herm(rng, 3), "moore"))
     add("det(Study)", "NotImplemented", lambda: U.det(A33, "Study"), A33)
     for mg in (1e-2, 1.0):
@@ -150,6 +155,8 @@ def build_table(R, rng):
         f = getattr(U, name)
         for bad in ("both", "Right", "", None, 0):
             add(name, f"OPT:side={bad!r}", lambda f=f, bad=bad: f(A23, side=bad), A23)
+            for lab, Atr in (("zero", refq.zeros(2, 3)), ("1x1", refq.qa(np.array([[[1.5, 0.5, 0.0, -1.0]]]))), ("identity", refq.eye(2))):
+                add(name, f"OPT:side={bad!r}:input_{lab}", lambda f=f, bad=bad, Atr=Atr: f(Atr, side=bad), Atr)
     # --- power iteration / adjoint --------------------------------------------------------
     add_ns("power_iteration", lambda Ans: U.power_iteration(Ans))
     add("power_iteration", "NS:tall", lambda: U.power_iteration(A32, return_eigenvalue=True), A32)
@@ -180,6 +187,10 @@ def build_table(R, rng):
         brow = _q(rng, 1, 3)
         add("QGMRESSolver.solve" + tag, "RHS:row_vector", lambda prec=prec, brow=brow: S.QGMRESSolver(preconditioner=prec).solve(A33, brow), A33, brow)
     add("QGMRESSolver", "OPT:preconditioner='ilu'", lambda: S.QGMRESSolver(preconditioner="ilu").solve(A33, bq3), A33, bq3)
+    zb3 = refq.zeros(3, 1)
+    add("QGMRESSolver", "OPT:preconditioner='ilu':rhs_zero", lambda: S.QGMRESSolver(preconditioner="ilu").solve(A33, zb3), A33, zb3)
+    add("QGMRESSolver", "OPT:preconditioner='ilu':identity_system", lambda: S.QGMRESSolver(preconditioner="ilu").solve(refq.eye(3), bq3), bq3)
+    add("QGMRESSolver", "OPT:preconditioner='ilu':max_iter=0", lambda: S.QGMRESSolver(preconditioner="ilu", max_iter=0).solve(A33, bq3), A33, bq3)
     add("QGMRESSolver", "OPT:preconditioner='right_lu'", lambda: S.QGMRESSolver(preconditioner="right_lu").solve(A33, bq3), A33, bq3)
     # --- pseudoinverse solvers: orientation ------------------------------------------------------
     add("RSP.compute_column_variant", "OR:wide", lambda: S.RandomizedSketchProjectPseudoinverse(block_size=2, max_iter=5).compute_column_variant(A23), A23)
@@ -257,6 +268,14 @@ def build_table(R, rng):
         add(name, "SP", lambda f=f: f(sp33, max_iter=5))
         for bad in bads:
             add(name, f"OPT:{optname}={bad!r}", lambda f=f, optname=optname, bad=bad: f(A33, max_iter=5, **{optname: bad}), A33)
+        # the unknown option value together with an input / budget for which the option is never CONSULTED (nothing to iterate on):
+        # validation has to happen up front, not where the option is used
+        bad = bads[0]
+        trivial = {"upper_triangular": refq.qa(refq.fa(A33) * np.triu(np.ones((3, 3)))[..., None]), "identity": refq.eye(3), "zero": refq.zeros(3, 3),
+                   "real_diagonal": refq.diagq([2.0, -1.0, 0.5]), "1x1": refq.qa(np.array([[[1.5, 0.5, 0.0, -1.0]]])), "2x2_triangular": refq.qa(refq.fa(A33)[:2, :2] * np.triu(np.ones((2, 2)))[..., None])}
+        for lab, Atr in trivial.items():
+            add(name, f"OPT:{optname}={bad!r}:input_{lab}", lambda f=f, optname=optname, bad=bad, Atr=Atr: f(Atr, max_iter=5, **{optname: bad}), Atr)
+        add(name, f"OPT:{optname}={bad!r}:max_iter=0", lambda f=f, optname=optname, bad=bad: f(A33, max_iter=0, **{optname: bad}), A33)
     # --- tensors ------------------------------------------------------------------------------------------------
     T2 = _q(rng, 2, 3)
     T4 = quaternion.as_quat_array(rng.standard_normal((2, 2, 2, 2, 4)))
